@@ -34,7 +34,7 @@ Definition c17_spec (n : nat) (xs : list (option Z)) (accs : list acc3) : bool *
    forallb snd per).
 
 Definition check (c : case) : verdict :=
-  let accs := model_accs (init (cN c)) (cxs c) in
+  let accs := if wide (cN c) then caccs c else model_accs (init (cN c)) (cxs c) in
   let model_ok := list_eqb acc_eqb accs (caccs c) in
   if has_nan (cxs c) then mkv model_ok true false
   else
